@@ -67,8 +67,22 @@ neighbor {addr} {{
         if not self.conf.reload():
             raise RuntimeError('harness configuration refused: %s' % getattr(self.conf, 'error', ''))
         self.neighbor = list(self.conf.neighbors.values())[0]
+        self._spec = (asn4, addpath, extnh, peer_as)
+        self.json = Response.JSON('6.0.0')
+        self.negotiate()
+
+    def negotiate(self) -> None:
+        """a (new) session of this neighbour: Negotiated from a real OPEN exchange"""
+        self.connect()
+        self.exchange()
+
+    def connect(self) -> None:
+        """a new connection: its own Negotiated (what Protocol.__init__ does), nothing negotiated yet"""
+        self.neg = Negotiated.make_negotiated(self.neighbor, Direction.IN)
+
+    def exchange(self) -> None:
+        asn4, addpath, extnh, peer_as = self._spec
         n = self.neighbor
-        self.neg = Negotiated.make_negotiated(n, Direction.IN)
         ours = Open.make_open(Version(4), n.session.local_as, n.hold_time, n.session.router_id, Capabilities().new(n, False))
         self.neg.sent(ours)
         caps = [bgpmsg.cap_mp(1, 1), bgpmsg.cap_mp(2, 1), bgpmsg.cap_rr()]
@@ -83,7 +97,11 @@ neighbor {addr} {{
         assert bool(self.neg.asn4) == asn4, 'session setup: asn4'
         self.handler = UpdateHandler()
         self.ctx = PeerContext(proto=None, neighbor=n, negotiated=self.neg, refresh_enhanced=False, routes_per_iteration=25, peer_id='verif', stats={'receive-prefixes': 0, 'receive-withdraws': 0})
-        self.json = Response.JSON('6.0.0')
+
+    def close(self) -> None:
+        """the session ends: nothing of the harness keeps its Negotiated alive"""
+        self.neg = None
+        self.ctx = None
 
 
 def _pfx(fam: str, item: dict) -> list:
@@ -125,7 +143,7 @@ def project_json(text: str) -> dict:
             elif k == 'as-path':
                 for idx in sorted(v, key=int):
                     seg = v[idx]
-                    obs['path'].append([1 if seg['element'] == 'as-set' else 2, [_asn(a) for a in seg['value']]])
+                    obs['path'].append([{'as-set': 1, 'as-sequence': 2, 'as-confed-sequence': 3, 'as-confed-set': 4}.get(seg['element'], 9), [_asn(a) for a in seg['value']]])
             elif k == 'next-hop':
                 pass  # reported with the routes
             elif k == 'med':
